@@ -34,11 +34,6 @@ def signToks : Option Bool → List Tok
   | some true => [.punct 45]
   | some false => [.punct 43]
 
-def signText : Option Bool → Bytes
-  | none => []
-  | some true => [45]
-  | some false => [43]
-
 def baseToks : Option Bytes → List Tok
   | none => []
   | some b => [.ident baseKw, .lit b]
@@ -338,9 +333,9 @@ theorem rtRat_canonical (toks : List Tok) (q : QVal) (relaxed : Bool) (h : rtRat
           simp [e] at hq
           rw [← hq]; exact qreduce2_relaxed _ d (by omega)
 
-theorem ratLiteral_canonical (toks : List Tok) (q : QVal) (relaxed : Bool) (h : ratLiteral toks = some (q, relaxed)) :
+theorem ratLiteralByShape_canonical (toks : List Tok) (q : QVal) (relaxed : Bool) (h : ratLiteralByShape toks = some (q, relaxed)) :
     (relaxed = false → QReduced q) ∧ (relaxed = true → QRelaxed q) := by
-  unfold ratLiteral at h
+  unfold ratLiteralByShape at h
   by_cases hs : ratDocShape toks = true
   · simp only [hs, if_true] at h
     cases h2 : rtRat toks with
@@ -355,9 +350,9 @@ theorem ratLiteral_canonical (toks : List Tok) (q : QVal) (relaxed : Bool) (h : 
   · simp [hs] at h
 
 /-- an accepted rational literal has the run-time parser's value -/
-theorem ratLiteral_sound (toks : List Tok) (v : QVal × Bool) (h : ratLiteral toks = some v) :
+theorem ratLiteralByShape_sound (toks : List Tok) (v : QVal × Bool) (h : ratLiteralByShape toks = some v) :
     rtRat toks = some (some v) := by
-  unfold ratLiteral at h
+  unfold ratLiteralByShape at h
   by_cases hs : ratDocShape toks = true
   · simp only [hs, if_true] at h
     cases h2 : rtRat toks with
